@@ -318,6 +318,7 @@ func c15Flat(s *c15Spec) []c15File {
 func c15Expect(s *c15Spec) *c15Snap {
 	e := &c15Snap{Templates: map[string]string{}, Files: map[string]string{}, Deps: map[string]*c15Snap{}}
 	e.Name = c15Sanitize(s.Meta.Name)
+	e.Version = s.Meta.Version
 	e.API = s.api()
 	e.Meta = c15ExpectMeta(&s.Meta)
 	e.Values = "{}"
